@@ -65,10 +65,12 @@ macro "hm_simp" : tactic => `(tactic|
     HookEv.ctx, HookEv.name, cpInProgress, finalizeBatch, captureCp, isCpPostCommit, isAmendPostCommit, journalOf,
     hasStashUpd, hasHeadOrBranch, stashTx, resetTx, wrapper, wrapperEffs, canon, canonEv, Op.backward, recordCp,
     pullPostRewrite, managedPostCheckout, wrapperRebaseDone, picksEvs, pickEvs, lastNew, rebaseStartEvs, rebaseEndEvs,
+    Op.heal, checkpointRestores, HookTables.checkpointEntryCalls, HookTables.noopRestorePullOnly, HookTables.noopRestoreForces,
     HookTables.managedHookNames, HookTables.rebaseTerminalHookNames, HookTables.managedRunGuardedBySkip, *])
 
+/-- start of a rebase whose todo is not empty: Start logged, the mask on -/
 theorem rebase_start (sH : St) (r : RebaseFacts) (hs : sH.side = {}) :
-    invokeAll {} false sH (rebaseStartEvs r false) =
+    invokeAll {} false sH (rebaseStartEvs r false false) =
       ({ journal := sH.journal ++ [.rebaseStart (r.branchArg.getD r.orig) false (some r.upstreamArg)], side := { mask := true } },
        .log (.rebaseStart (r.branchArg.getD r.orig) false (some r.upstreamArg)) ::
          (if r.orig = r.onto then [] else [.renameWL r.orig r.onto r.wlAtOrig])) := by
@@ -80,7 +82,7 @@ theorem rebase_start (sH : St) (r : RebaseFacts) (hs : sH.side = {}) :
           { ({ rebaseDir := true, action := if false = true then Action.pull else Action.unset } : Ctx) with head := some r.onto },
        .postCheckout (some r.orig) (some r.onto) true
           { ({ rebaseDir := true, action := if false = true then Action.pull else Action.unset } : Ctx) with
-            head := some r.onto, wlPresent := r.wlAtOrig, todoEmpty := r.pairs.isEmpty }] =
+            head := some r.onto, wlPresent := r.wlAtOrig, todoEmpty := false }] =
       ({ journal := sH.journal ++ [.rebaseStart (r.branchArg.getD r.orig) false (some r.upstreamArg)], side := { mask := true } },
        .log (.rebaseStart (r.branchArg.getD r.orig) false (some r.upstreamArg)) ::
          (if r.orig = r.onto then [] else [.renameWL r.orig r.onto r.wlAtOrig])) := by
@@ -91,8 +93,18 @@ theorem rebase_start (sH : St) (r : RebaseFacts) (hs : sH.side = {}) :
   rw [invokeAll_rebase_inner _ _ _ _ _ (by simp) (by simp) (by simp)]
   simp
 
-theorem pull_rebase_start (sH : St) (r : RebaseFacts) (hs : sH.side = {}) (hp : r.pairs.isEmpty = false) :
-    invokeAll {} false sH (rebaseStartEvs r true) =
+/-- a rebase with nothing to replay (empty todo): the checkout of the new base is the last hook git runs while the
+    rebase directory exists; the fallback of the post-checkout arm puts the masked entry points back -/
+theorem rebase_noop (sH : St) (r : RebaseFacts) (hs : sH.side = {}) (hi : r.inner = []) :
+    invokeAll {} false sH (rebaseStartEvs r false true ++ rebaseEndEvs { r with pairs := [] } false) =
+      ({ journal := sH.journal ++ [.rebaseStart (r.branchArg.getD r.orig) false (some r.upstreamArg)], side := {} },
+       .log (.rebaseStart (r.branchArg.getD r.orig) false (some r.upstreamArg)) ::
+         (if r.orig = r.onto then [] else [.renameWL r.orig r.onto r.wlAtOrig])) := by
+  hm_simp
+  split <;> simp [journalOf]
+
+theorem pull_rebase_start (sH : St) (r : RebaseFacts) (hs : sH.side = {}) :
+    invokeAll {} false sH (rebaseStartEvs r true false) =
       ({ journal := sH.journal, side := { mask := true, pull := some r.orig } }, []) := by
   unfold rebaseStartEvs
   rw [invokeAll_append]
@@ -102,13 +114,20 @@ theorem pull_rebase_start (sH : St) (r : RebaseFacts) (hs : sH.side = {}) (hp : 
           { ({ rebaseDir := true, action := if true = true then Action.pull else Action.unset } : Ctx) with head := some r.onto },
        .postCheckout (some r.orig) (some r.onto) true
           { ({ rebaseDir := true, action := if true = true then Action.pull else Action.unset } : Ctx) with
-            head := some r.onto, wlPresent := r.wlAtOrig, todoEmpty := r.pairs.isEmpty }] =
+            head := some r.onto, wlPresent := r.wlAtOrig, todoEmpty := false }] =
       ({ journal := sH.journal, side := { mask := true, pull := some r.orig } }, []) := by
     hm_simp
   rw [h3]
   simp only
   rw [invokeAll_rebase_inner _ _ _ _ _ (by simp) (by simp) (by simp)]
   simp
+
+/-- `pull --rebase` in which every local commit is already upstream: the fallback runs the pull post-rewrite
+    handling (working log moved to the new head, nothing to map) and restores the masked entry points -/
+theorem pull_rebase_noop (sH : St) (r : RebaseFacts) (hs : sH.side = {}) (hi : r.inner = []) (hne : r.orig ≠ r.onto) :
+    invokeAll {} false sH (rebaseStartEvs r true true ++ rebaseEndEvs { r with pairs := [] } true) =
+      ({ journal := sH.journal, side := {} }, [.fetchNotes, .renameWL r.orig r.onto r.wlAtOrig]) := by
+  hm_simp
 
 theorem rebase_end (st : St) (r : RebaseFacts) (hs : st.side = { mask := true }) (p : Sha × Sha)
     (hp : r.pairs.getLast? = some p) :
